@@ -23,6 +23,7 @@ OBJECTS = {
     # same model tag, other rated-power class (the capability set depends on both)
     "et205mid": ("ET", "ETU", 8899, "v2", 47547), "et745big": ("ET", "ETT", 8899, "v2", 47547), "et205big": ("ET", "ETU", 502, "v2", 47547),
 }
+OBJECTS["dt3tcp"] = ("DT", "DTU", 502, "", 0)
 OBJECTS.update({"dt3_f7": OBJECTS["dt3"], "et205_7f": OBJECTS["et205"], "et745tcp_01": OBJECTS["et745tcp"]})
 # one object type per model tag: read_device_info branches on the tag (phases, MPPT count, platform, second battery)
 from .checks_inverter import et_tags, dt_tags  # noqa: E402
@@ -313,6 +314,26 @@ def check(prop: str, tier: str, seed: int) -> int:
                 jobs.append({"pair": [a, b], "s1": [rrd], "s2": [rrd], "priors": ["zeros", "zeros"],
                              "shuffles": shuffles(2, 2) if not quick else dshuffles(2, 2, quick, rnd),
                              "inv": [obj_spec(a, rnd, "zeros", "random"), obj_spec(b, rnd, "zeros", "random")]})
+    # directed: two objects that talk to the SAME host and port (two units behind one gateway, or a second object for the same
+    # inverter) with different / equal communication addresses; reading calls only (they share the inverter's registers)
+    import copy
+    for a, b in [("et745tcp", "et745tcp_01"), ("et745tcp_01", "et745tcp"), ("et205tcp", "dt3tcp"), ("dt3tcp", "et205tcp"),
+                 ("et745tcp", "et745tcp"), ("et205", "et205_7f"), ("dt3", "dt3_f7")]:
+        ro = [c for c in alphabet(a) if not c["api"].startswith(("set_", "write_"))]
+        rob = [c for c in alphabet(b) if not c["api"].startswith(("set_", "write_"))]
+        for k in range(3 if quick else 12):
+            s1 = [rnd.choice(ro) for _ in range(rnd.randint(1, 2))]
+            s2 = [rnd.choice(rob) for _ in range(rnd.randint(1, 2))]
+            ia = obj_spec(a, rnd, "zeros", "random")
+            ib = obj_spec(b, rnd, "zeros", "random")
+            ib["sim"] = copy.deepcopy(ia["sim"])
+            if OBJECTS[a][0] != OBJECTS[b][0]:
+                # one register file that serves both families' device information
+                ib["sim"]["regs"].update(obj_spec(b, rnd, "zeros", "random")["sim"]["regs"])
+                ia["sim"] = copy.deepcopy(ib["sim"])
+            ib["host"] = "inv0"
+            jobs.append({"pair": [a, b], "s1": s1, "s2": s2, "priors": ["zeros", "zeros"],
+                         "shuffles": dshuffles(len(s1) + 1, len(s2) + 1, quick, rnd), "inv": [ia, ib]})
     res = engine.parallel_map("harness.checks_shuffle", "run_shuffle", jobs, procs=16, chunk=2)
     cases, src, inter = judge_results(run, res)
     from . import checks_sim
